@@ -235,6 +235,71 @@ def op_numhandler(start_int, l):
     return ' '.join(_nh_parse(h, s) for s in dec_list(l))
 
 
-for _n, _f in (('pynum', op_pynum), ('numhandler', op_numhandler), ('tablevars', op_tablevars), ('joinresolve', op_joinresolve), ('exceptcols', op_exceptcols), ('dictvars', op_dictvars), ('attrvars', op_attrvars), ('directvars', op_directvars), ('clidialect', op_clidialect), ('starcount', op_starcount), ('starvars', op_starvars), ('starmarker', op_starmarker), ('trsel', op_trsel), ('updpairs', op_updpairs),
+def _ast_json(node):
+    """the parts of a Python AST that column_info_from_node / ast.walk look at (Model/PyAst.lean: PyNode)"""
+    import ast
+    if isinstance(node, ast.Name):
+        return {'k': 'name', 'id': node.id}
+    if isinstance(node, ast.Attribute):
+        return {'k': 'attr', 'attr': node.attr, 'v': _ast_json(node.value)}
+    if isinstance(node, ast.Subscript):
+        return {'k': 'sub', 'v': _ast_json(node.value), 's': _ast_json(node.slice)}
+    if isinstance(node, ast.Constant):
+        v = node.value
+        if isinstance(v, str):
+            return {'k': 'cstr', 's': v}
+        if isinstance(v, bool):
+            return {'k': 'cbool'}
+        if isinstance(v, int):
+            return {'k': 'cint', 'n': str(v)}
+        return {'k': 'cother'}
+    if isinstance(node, ast.Call):
+        return {'k': 'call', 'f': _ast_json(node.func), 'a': [_ast_json(x) for x in node.args], 'r': [_ast_json(x) for x in node.keywords]}
+    return {'k': 'other', 'c': [_ast_json(c) for c in ast.iter_child_nodes(node) if not isinstance(c, ast.expr_context)]}
+
+
+def op_pyastinfos(s):
+    """a select-list text (literals already in place) -> the tree Python's parser builds for it, as the model's input, and the REAL
+    ast_parse_select_expression_to_column_infos answer.  Output: <json> TAB <answer>"""
+    import ast, json
+    text = dec_str(s)
+    try:
+        root = ast.parse(text)
+    except (SyntaxError, ValueError, RecursionError, MemoryError):
+        return 'SYNTAX'
+    stmts = [[_ast_json(c) for c in ast.iter_child_nodes(st) if not isinstance(c, ast.expr_context)] for st in root.body]
+    is_tuple = len(root.body) == 1 and len(list(ast.iter_child_nodes(root.body[0]))) == 1 and isinstance(list(ast.iter_child_nodes(root.body[0]))[0], ast.Tuple)
+    elts = []
+    if is_tuple:
+        try:
+            elts = [_ast_json(e) for e in ast.parse('[' + text + ']').body[0].value.elts]
+        except SyntaxError:
+            return 'SYNTAX'
+    try:
+        infos = rbql_engine.ast_parse_select_expression_to_column_infos(text)
+        ans = 'ok ' + (' '.join(enc_info2(ci) for ci in infos) if infos else '~')
+    except rbql_engine.RbqlParsingError as e:
+        m = str(e)
+        ans = 'err 118' if '#118' in m else 'err 119' if '#119' in m else 'err alias' if 'column alias' in m else 'err other'
+    except SyntaxError:
+        return 'SYNTAX'
+    return json.dumps({'stmts': stmts, 'tuple': is_tuple, 'elts': elts}, ensure_ascii=True, separators=(',', ':')) + '\t' + ans
+
+
+def enc_info2(ci):
+    if ci is None:
+        return 'O'
+    if ci.is_star:
+        return 'S' + ('*' if ci.table_name is None else ci.table_name)
+    if ci.alias_name is not None:
+        return 'A' + enc_str(ci.alias_name)
+    if ci.column_name is not None:
+        return 'N' + enc_str(ci.column_name)
+    if ci.column_index is not None:
+        return 'O' if ci.column_index < 0 else 'F%s%d' % (ci.table_name, ci.column_index)
+    return 'O'
+
+
+for _n, _f in (('pyastinfos', op_pyastinfos), ('pynum', op_pynum), ('numhandler', op_numhandler), ('tablevars', op_tablevars), ('joinresolve', op_joinresolve), ('exceptcols', op_exceptcols), ('dictvars', op_dictvars), ('attrvars', op_attrvars), ('directvars', op_directvars), ('clidialect', op_clidialect), ('starcount', op_starcount), ('starvars', op_starvars), ('starmarker', op_starmarker), ('trsel', op_trsel), ('updpairs', op_updpairs),
                ('basicvars', op_basicvars), ('arrayvars', op_arrayvars), ('selinfos', op_selinfos)):
     impl_py.register(_n, _f)
